@@ -402,7 +402,7 @@ def selftest(ctx, cases, recs, failing):
 def run(ctx):
     ctx.rule = ("cases enumerated by TLC from spec/FitLaws.tla: family x regular parameter class x n in {100,500,5000} "
                 "x scale factor c (quick {1/4,4}; thorough {1/10,1/4,1/2,2,4,10}) keeping the nominal data scale in "
-                "[0.05,20] x start kind {default,user} x replicate (quick 1, thorough 3); data drawn with numpy from "
+                "[0.05,20] x start kind {default, user (near the generating values), far (an order of magnitude off, n=500 only)} x replicate (quick 1, thorough 3); data drawn with numpy from "
                 "the class (seeded by VERIF_SEED, family, class, n, replicate). distinct = distinct case key; "
                 "non-trivial = the first fit moved the parameters away from the start values and the generating "
                 "log-likelihood is finite. Every case is run three times in its worker process (given order, "
